@@ -64,6 +64,10 @@ pub struct OpCtx {
     pub log: StubLog,
 }
 
+/// re-entrant calls are switched off for this process (the driver's answer to a tree on which a
+/// re-entrant call never returns: no listed property promises that it does)
+pub static NO_NEST: std::sync::atomic::AtomicBool = std::sync::atomic::AtomicBool::new(false);
+
 /// callbacks that found no operation context on their thread
 pub static NOCTX_CALLBACKS: std::sync::atomic::AtomicU64 = std::sync::atomic::AtomicU64::new(0);
 
@@ -210,6 +214,9 @@ fn finish_callback(act: Act) -> Result<(), InterpolateError> {
 /// re-entrancy: issue `call` on the interpolator whose callback is running, with a context of its
 /// own, and record the outcome in the log of the outer operation
 fn do_nest(at: u32, call: &Call) {
+    if NO_NEST.load(std::sync::atomic::Ordering::Relaxed) {
+        return;
+    }
     let Some(slot) = CUR_SLOT.with(|c| c.get()) else { return };
     let outer = OPCTX.with(|c| c.borrow_mut().take());
     let Some(outer) = outer else { return };
